@@ -120,6 +120,11 @@ def letter_message(letter, next_id, rng):
             [{"range": {"start": pos(1, 99999), "end": pos(99999, 99999)}, "text": "\n// €"}],
             [{"range": {"start": pos(0, 0), "end": pos(0, 0)}, "text": "// 😀\r"}],
             [{"range": {"start": pos(0, 0), "end": pos(99999, 0)}, "text": ""}],
+            # a shrinking ranged edit followed by a full-text replacement in ONE notification (each change is relative
+            # to the text its predecessor left)
+            [{"range": {"start": pos(0, 0), "end": pos(1, 0)}, "text": ""}, {"text": "proc main() {\n    // neu é\n}\n"}],
+            [{"range": {"start": pos(0, 0), "end": pos(0, 0)}, "text": "// länger\n// noch länger\n"}, {"text": "proc p() {}\n"},
+             {"range": {"start": pos(0, 5), "end": pos(0, 6)}, "text": "q"}],
             [{"text": CORNER_TEXTS[rng.randrange(len(CORNER_TEXTS))]}],
             [{"range": {"start": pos(99999, 0), "end": pos(99999, 0)}, "text": "ä"}, {"range": {"start": pos(99999, 0), "end": pos(99999, 0)}, "text": "€"},
              {"range": {"start": pos(0, 1), "end": pos(0, 2)}, "text": ""}],
@@ -425,13 +430,16 @@ def c20_history(rng, n):
             toks.append(f"O{u}={_hex(t)}")
         elif k < 5 and u in open_docs:
             # full-text replacements and small ranged edits near the start of a line
-            if rng.random() < 0.5:
-                t = rng.choice(C20_TEXTS) + ("// v%d\n" % rng.randrange(100))
-                toks.append(f"C{u}=F:{_hex(t)}")
-            else:
+            def one_change():
+                if rng.random() < 0.5:
+                    t = rng.choice(C20_TEXTS) + ("// v%d\n" % rng.randrange(100))
+                    return f"F:{_hex(t)}"
                 line = rng.randrange(4)
                 ins = rng.choice(["// c\n", " ", "x", "\n"])
-                toks.append(f"C{u}=R:{line}:0:{line}:0:{_hex(ins)}")
+                return f"R:{line}:0:{line}:0:{_hex(ins)}"
+            # one change per notification, or several (each relative to the text its predecessor left)
+            n_ch = 1 if rng.random() < 0.7 else rng.randrange(2, 4)
+            toks.append(f"C{u}=" + ",".join(one_change() for _ in range(n_ch)))
         elif k < 6:
             open_docs.pop(u, None)
             toks.append(f"X{u}")
@@ -445,6 +453,8 @@ def c20_history(rng, n):
 def c20_messages(toks, diag):
     variants = INIT_DIAG_VARIANTS if diag else INIT_NODIAG_VARIANTS
     msgs = [lc.request(100000, "initialize", variants[zlib.crc32(" ".join(toks).encode()) % len(variants)]), lc.notification("initialized", {})]
+    # document versions as a client numbers them: 1 at every didOpen (also a re-open), +1 with every didChange
+    version = {}
     for k, t in enumerate(toks):
         kind = t[0]
         rest = t[1:]
@@ -455,7 +465,8 @@ def c20_messages(toks, diag):
         uri = C20_URIS[int(u)]
         if kind == "O":
             text = bytes.fromhex(arg).decode() if arg != "-" else ""
-            msgs.append(lc.notification("textDocument/didOpen", {"textDocument": {"uri": uri, "languageId": "spl", "version": 0, "text": text}}))
+            version[uri] = 1
+            msgs.append(lc.notification("textDocument/didOpen", {"textDocument": {"uri": uri, "languageId": "spl", "version": 1, "text": text}}))
         elif kind == "C":
             changes = []
             for c in arg.split(","):
@@ -465,7 +476,8 @@ def c20_messages(toks, diag):
                 else:
                     changes.append({"range": {"start": {"line": int(p[1]), "character": int(p[2])}, "end": {"line": int(p[3]), "character": int(p[4])}},
                                     "text": bytes.fromhex(p[5]).decode() if p[5] != "-" else ""})
-            msgs.append(lc.notification("textDocument/didChange", {"textDocument": {"uri": uri, "version": 1}, "contentChanges": changes}))
+            version[uri] = version.get(uri, 0) + 1
+            msgs.append(lc.notification("textDocument/didChange", {"textDocument": {"uri": uri, "version": version[uri]}, "contentChanges": changes}))
         elif kind == "X":
             msgs.append(lc.notification("textDocument/didClose", {"textDocument": {"uri": uri}}))
         elif kind == "P":
@@ -506,6 +518,13 @@ def c20_cases(run):
     # in order (a closed document is forgotten, the edits before the close are not lost)
     small = "proc helper(i: int) {}\n"
     hists.append(([f"O1={_hex(small)}", f"O0={_hex(BIG_DOC)}"] + ["C1=R:0:0:0:0:" + _hex(" ")] * 150 + ["X1", "P1", "H1", "O1=" + _hex(C20_TEXTS[1]), "P1"], True))
+    # exactly as many cheap notifications as the inbox holds (and a few more or less) directly in front of the close:
+    # the close itself is the one that does not fit
+    for npile in (31, 32, 33, 36):
+        hists.append(([f"O1={_hex(small)}", f"O0={_hex(BIG_DOC)}"] + ["C1=R:0:0:0:0:" + _hex(" ")] * npile + ["X1", "P1", "H1"], True))
+    # several lives of one URI: the versions start again at 1 after the re-open (and after a second didOpen without a close)
+    hists.append(([f"O1={_hex(small)}"] + ["C1=R:0:0:0:0:" + _hex("// a\n")] * 5 + ["P1", "X1", f"O1={_hex(C20_TEXTS[1])}", "C1=R:0:0:0:0:" + _hex("// b\n"), "P1", "H1",
+                   f"O1={_hex(C20_TEXTS[2])}", "C1=R:0:0:0:0:" + _hex("// c\n"), "C1=R:0:0:0:0:" + _hex("// d\n"), "P1", "F1"], True))
     # ... and a document OPENED behind the pile is there for the request that follows it
     hists.append(([f"O1={_hex(small)}", f"O0={_hex(BIG_DOC)}"] + ["C1=R:0:0:0:0:" + _hex(" ")] * 150 + ["O2=" + _hex(C20_TEXTS[2]), "P2", "H2", "C2=R:0:0:0:0:" + _hex("// x\n"), "P2"], True))
     slow = [i % 3 == 1 or n_hist <= i < n_small for i in range(len(hists))]
